@@ -65,7 +65,7 @@ def _ops(env, M, N, prog):
     return [('M', op[1]) if op[0] == 'M' else ('G', next(it)) for op in prog]
 
 
-def h_trajectory_forward(env, N, r, prog, compiled=False):
+def h_trajectory_forward(env, N, r, prog, compiled=False, touch=()):
     """Circuit.forward on a program interleaving gates and measurement layers == the operations applied one by one
     (gate.forward / state.measure), records concatenated in order, log-probabilities summed"""
     M = Mods(env)
@@ -79,6 +79,8 @@ def h_trajectory_forward(env, N, r, prog, compiled=False):
     # (a circuit compiled while it was still measurement-free, then extended, compiled again or not)
     points = [] if compiled is False else ([len(opsA) - 1] if compiled is True else list(compiled))
 
+    # touch: positions k after which the half-built circuit is looked at (repr) and run once on a scratch state, as in an
+    # interactive session, before more operations are added
     def build():
         for k, (kind, x) in enumerate(opsA):
             if kind == 'M':
@@ -87,9 +89,15 @@ def h_trajectory_forward(env, N, r, prog, compiled=False):
                 circ.take(x)
             if k in points:
                 circ.compile()          # with measurement layers only the unitary layers are compiled
-        return circ.forward(A)
+            if k in touch:
+                repr(circ)
+                circ.forward(M.st.zero_state(N))
+        return circ
+    built = env.run(build)          # coins of the scratch runs are drawn before the compared streams start
+    env.goal('built_no_exception', b_not(built.raised))
+    n0, lp0 = len(circ.measure_result), circ.log2prob       # the record accumulates over runs (scratch runs come first)
     env.reseed()
-    ra = env.run(build)
+    ra = env.run(lambda: circ.forward(A))
     env.reseed()
 
     def manual():
@@ -111,11 +119,11 @@ def h_trajectory_forward(env, N, r, prog, compiled=False):
     env.goal('rows', arr_eq(A.gs, B.gs))
     env.goal('signs', arr_eq(A.ps, B.ps))
     env.goal('rank', eq(A.r, B.r))
-    env.goal('record_length', len(circ.measure_result) == len(rec))
-    if len(circ.measure_result) == len(rec):
+    env.goal('record_length', len(circ.measure_result) == n0 + len(rec))
+    if len(circ.measure_result) == n0 + len(rec):
         for k in range(len(rec)):
-            env.goal('record[%d]' % k, eq(circ.measure_result[k], rec[k]))
-    env.goal('log2prob', eq(circ.log2prob, lp))
+            env.goal('record[%d]' % k, eq(circ.measure_result[n0 + k], rec[k]))
+    env.goal('log2prob', eq(circ.log2prob - lp0, lp))
     env.goal('num_of_measures', circ.num_of_measures == sum(len(op[1]) for op in prog if op[0] == 'M'))
 
 
@@ -340,6 +348,10 @@ def jobs(tier):
                       ([['gen', [0]], ['gen', [0, 1]], ['M', [1]], ['gen', [1]]], [1, 3]), ([['M', [1]], ['gen', [0, 1]]], [0])):
         for r in (0, 1):
             J.append(dict(harness=('c14', 'h_trajectory_forward'), params=dict(N=2, r=r, prog=prog, compiled=pts), timeout_s=600, cost=40))
+    for prog, touch in (([['gen', [0, 1]], ['M', [0]], ['gen', [1]]], [1]), ([['gen', [0]], ['M', [0, 1]], ['gen', [0]], ['gen', [1]]], [1]),
+                        ([['M', [1]], ['gen', [0]]], [0]), ([['gen', [0, 1]], ['M', [0]], ['gen', [1]], ['M', [1]]], [1, 2])):
+        for r in (0, 1):
+            J.append(dict(harness=('c14', 'h_trajectory_forward'), params=dict(N=2, r=r, prog=prog, touch=touch), timeout_s=600, cost=40))
     for N in (1, 2):
         for outcome in (0, 1):
             J.append(dict(harness=('c14', 'h_postselect'), params=dict(N=N, outcome=outcome), timeout_s=600, cost=20))
